@@ -281,7 +281,23 @@ def check_end_match_distance(ctx, ck, rule):
     from ..rules import self_closure
     f = ctx.model.func(CC)
     cmp_ = []
-    for g_ in self_closure(ctx, f):
+
+    def near(f_, depth=2):
+        # the helpers called on self plus what they call on other objects of the package (parent.match_end(..)),
+        # two levels deep
+        seen_ = {g_.qual: g_ for g_ in self_closure(ctx, f_)}
+        frontier = list(seen_.values())
+        for _ in range(depth):
+            nxt = []
+            for g_ in frontier:
+                for e_ in ctx.program.edges.get(g_.qual, []):
+                    if e_.kind == 'call' and e_.callee.qual not in seen_ and e_.callee.qual in ctx.model.funcs:
+                        seen_[e_.callee.qual] = e_.callee
+                        nxt.append(e_.callee)
+            frontier = nxt
+        return list(seen_.values())
+    closure_ = near(f)
+    for g_ in closure_:
         gfl_ = ctx.flow(g_)
         for n in walk_no_nested(g_.node):
             if isinstance(n, ast.Compare) and len(n.ops) == 1:
@@ -298,7 +314,7 @@ def check_end_match_distance(ctx, ck, rule):
         # no such comparison: a closeness helper with a relative term is a definite answer, anything else is
         # a form of the test this rule does not know
         rel = []
-        for g_ in self_closure(ctx, f):
+        for g_ in closure_:
             for c in walk_no_nested(g_.node):
                 if isinstance(c, ast.Call) and (dotted(c.func) or '').split('.')[-1] in ('isclose', 'allclose') and \
                    any('min_seglen' in norm(x) or isinstance(x, ast.Name) for k in c.keywords if k.arg == 'atol' for x in [k.value]):
